@@ -181,6 +181,74 @@ M('C17', 'mask-all-hash-bits', PGP, "                    signature_issues &= ~Se
   "                    signature_issues &= ~(SecurityIssues.HashFunctionNotCollisionResistant | SecurityIssues.NoSelfSignature)", 'C17.5')
 M('C17', 'issues-only-soundness', PGP, "                issues = signature_issues | subkey_issues", "                issues = subkey_issues | subkey_issues", 'C17.5')
 M('C17', 'issues-xor', PGP, "                issues = signature_issues | subkey_issues", "                issues = signature_issues ^ subkey_issues", 'C17')
+_EXPIRED = "        expires = self.expires_at\n        if expires is not None:\n            return expires <= datetime.now(timezone.utc)\n\n        return False"
+# ---- second round: kinds the rewritten rules could have stopped seeing (cached state, `or` for `|`, short-circuits that skip
+#      a source, subset tests, default arguments, selectors defined through one another) - each must be exit 1, never exit 2
+M('C17', 'bool-any-good', TY, _BOOL, "        return next(self.good_signatures, None) is not None", 'C17.2')
+M('C17', 'bool-not-generator', TY, _BOOL, "        return not self.bad_signatures", 'C17.2')
+M('C17', 'bool-first-bad-only', TY, _BOOL, "        first = next(iter(self._subjects), None)\n        return first is None or not (first.issues and first.issues.causes_signature_verify_to_fail)", 'C17.2')
+M('C17', 'bool-nonempty-and-all', TY, "        return all(\n            sigsub.issues is SecurityIssues.OK", "        return bool(self._subjects) and all(\n            sigsub.issues is SecurityIssues.OK", 'C17.2')
+M('C17', 'good-subset-of-advisory', TY, _GOOD,
+  "        from .constants import SecurityIssues\n        tolerated = SecurityIssues.HashFunctionNotCollisionResistant | SecurityIssues.AsymmetricKeyLengthIsTooShort\n        yield from (sigsub for sigsub in self._subjects if sigsub.issues in tolerated)", 'C17.2')
+M('C17', 'bad-only-wrongsig', TY, _BAD,
+  "        from .constants import SecurityIssues\n        yield from (sigsub for sigsub in self._subjects if SecurityIssues.WrongSig in sigsub.issues)", 'C17.2')
+T('C17', 'twin-bool-no-bad', TY, _BOOL, "        return next(self.bad_signatures, None) is None")
+T('C17', 'twin-bool-not-list-bad', TY, _BOOL, "        return not list(self.bad_signatures)")
+T('C17', 'twin-bool-count-good', TY, _BOOL, "        return len(list(self.good_signatures)) == len(self._subjects)")
+T('C17', 'twin-bool-empty-shortcut', TY, "        return all(\n            sigsub.issues is SecurityIssues.OK", "        return not self._subjects or all(\n            sigsub.issues is SecurityIssues.OK")
+T('C17', 'twin-good-via-mask', TY, _GOOD,
+  "        from .constants import SecurityIssues\n        failing = SecurityIssues.WrongSig | SecurityIssues.Expired | SecurityIssues.Disabled | SecurityIssues.Invalid | SecurityIssues.NoSelfSignature\n        yield from (sigsub for sigsub in self._subjects if not (sigsub.issues & failing))")
+M('C17', 'and-or-instead-of-plus', TY, "        self._subjects += other._subjects\n        return self", "        self._subjects = self._subjects or other._subjects\n        return self", 'C17.2')
+M('C17', 'default-arg-zero', TY, "    def add_sigsubj(self, signature, by, subject=None, issues=None):", "    def add_sigsubj(self, signature, by, subject=None, issues=0):", 'C17.4')
+M('C01', 'default-arg-zero', TY, "    def add_sigsubj(self, signature, by, subject=None, issues=None):", "    def add_sigsubj(self, signature, by, subject=None, issues=0):", 'C01.4')
+M('C17', 'default-or-ok', TY, "        if issues is None:\n            from .constants import SecurityIssues\n            issues = SecurityIssues(0xFF)\n",
+  "        from .constants import SecurityIssues\n        issues = issues or SecurityIssues.OK\n", 'C17.4')
+M('C17', 'pred-mask-joined-with-or', CO, _PRED,
+  "        return bool(self & (SecurityIssues.WrongSig or SecurityIssues.Expired or SecurityIssues.Disabled or SecurityIssues.Invalid or SecurityIssues.NoSelfSignature))", 'C17.1')
+M('C17', 'pred-superset-test', CO, _PRED,
+  "        failing = SecurityIssues.WrongSig | SecurityIssues.Expired | SecurityIssues.Disabled | SecurityIssues.Invalid | SecurityIssues.NoSelfSignature\n        return (self & failing) == failing", 'C17.1')
+M('C17', 'pred-value-le-mask', CO, _PRED,
+  "        failing = SecurityIssues.WrongSig | SecurityIssues.Expired | SecurityIssues.Disabled | SecurityIssues.Invalid | SecurityIssues.NoSelfSignature\n        return 0 < self.value <= failing.value", 'C17.1')
+M('C17', 'pred-shortcut-ok-members', CO, _PRED,
+  "        if SecurityIssues.Revoked in self:\n            return False\n" + _PRED, 'C17.1')
+M('C17', 'issues-joined-with-or', PGP, "                issues = signature_issues | subkey_issues", "                issues = signature_issues or subkey_issues", 'C17')
+M('C17', 'soundness-skipped-when-self-verifying', PGP, "                subkey_issues = self.check_soundness(self_verifying)\n",
+  "                subkey_issues = SecurityIssues.OK if self_verifying else self.check_soundness(self_verifying)\n", 'C17.5')
+M('C17', 'soundness-cached-on-key', PGP, "                subkey_issues = self.check_soundness(self_verifying)\n",
+  "                if getattr(self, '_soundness', None) is None:\n                    self._soundness = self.check_soundness(self_verifying)\n                subkey_issues = self._soundness\n", 'C17.5')
+M('C17', 'branch-short-circuit-on-primitives', PGP, "                if issues and issues.causes_signature_verify_to_fail:",
+  "                if signature_issues and issues.causes_signature_verify_to_fail:", 'C17.5')
+M('C17', 'expired-cached', PGP, _EXPIRED,
+  "        if getattr(self, '_expired', None) is None:\n            expires = self.expires_at\n            self._expired = expires is not None and expires <= datetime.now(timezone.utc)\n        return self._expired", 'C17.5')
+M('C17', 'expired-skipped-when-self-verifying-default', PGP, "    def check_management(self, self_verifying=False):\n        res = self.self_verified\n        if self.is_expired:",
+  "    def check_management(self, self_verifying=True):\n        res = self.self_verified\n        if self.is_expired and not self_verifying:", 'C17.5')
+M('C01', 'verified-short-circuit-on-keyid', PGP, "                    verified = self._key.verify(sig.hashdata(subj), sig.__sig__, getattr(hashes, sig.hash_algorithm.name)())",
+  "                    verified = sig.signer == self.fingerprint.keyid or self._key.verify(sig.hashdata(subj), sig.__sig__, getattr(hashes, sig.hash_algorithm.name)())", 'C01.2')
+M('C01', 'hashdata-cached-on-signature', PGP, "                    verified = self._key.verify(sig.hashdata(subj), sig.__sig__, getattr(hashes, sig.hash_algorithm.name)())",
+  "                    if getattr(sig, '_hashed', None) is None:\n                        sig._hashed = sig.hashdata(subj)\n                    verified = self._key.verify(sig._hashed, sig.__sig__, getattr(hashes, sig.hash_algorithm.name)())", 'C01.2')
+M('C01', 'verdict-or-ok', PGP, _WRONGSIG_REC,
+  "                    sigv.add_sigsubj(sig, self, subj, (not verified and SecurityIssues.WrongSig) or SecurityIssues.OK)".replace("(not verified and SecurityIssues.WrongSig) or SecurityIssues.OK", "(verified and SecurityIssues.WrongSig) or SecurityIssues.OK"), 'C01.2')
+M('C01', 'material-handler-tuple', FL, _DSA_VERIFY.replace("        return True", "        return True"),
+  _DSA_VERIFY.replace("except InvalidSignature:\n            return False", "except (InvalidSignature, TypeError, ValueError):\n            return False"), 'C01.3')
+M('C01', 'material-result-cached', FL, _DSA_VERIFY,
+  "        if getattr(self, '_verified_ok', False):\n            return True\n        try:\n            self.__pubkey__().verify(sigbytes, subj, hash_alg)\n        except InvalidSignature:\n            return False\n        self._verified_ok = True\n        return True", 'C01.3')
+M('C01', 'material-empty-subject-shortcut', FL, _DSA_VERIFY,
+  "        try:\n            subj and self.__pubkey__().verify(sigbytes, subj, hash_alg)\n        except InvalidSignature:\n            return False\n        return True", 'C01.3')
+# ---- C01.5 (header octets reach the trailer through injective stores)
+_PUBALG_SET = "        self._pubalg = PubKeyAlgorithm(val)\n\n        sigs = {"
+T('C01', 'twin-pubalg-setter-temp', PK, _PUBALG_SET, "        alg = PubKeyAlgorithm(val)\n        self._pubalg = alg\n\n        sigs = {")
+M('C01', 'pubalg-rsa-aliases-folded', PK, _PUBALG_SET,
+  "        val = PubKeyAlgorithm(val)\n        if val in {PubKeyAlgorithm.RSAEncrypt, PubKeyAlgorithm.RSASign}:\n            val = PubKeyAlgorithm.RSAEncryptOrSign\n        self._pubalg = val\n\n        sigs = {", 'C01.5')
+M('C01', 'pubalg-mapping-with-default', PK, _PUBALG_SET,
+  "        self._pubalg = {int(a): a for a in PubKeyAlgorithm}.get(val, PubKeyAlgorithm.RSAEncryptOrSign)\n\n        sigs = {", 'C01.5')
+M('C01', 'halg-unknown-folded', PK, "            self._halg = HashAlgorithm(val)\n\n        except ValueError:  # pragma: no cover\n            self._halg = val\n\n    @property\n    def signature(self):",
+  "            self._halg = HashAlgorithm(val)\n\n        except ValueError:  # pragma: no cover\n            self._halg = HashAlgorithm.Invalid\n\n    @property\n    def signature(self):", 'C01.5')
+M('C01', 'sigtype-high-bit-masked', PK, "        self._sigtype = SignatureType(val)\n\n    @sdproperty\n    def pubalg(self):\n        return self._pubalg\n\n    @pubalg.register(int)\n    @pubalg.register(PubKeyAlgorithm)\n    def pubalg_int(self, val):\n        self._pubalg = PubKeyAlgorithm(val)\n\n        sigs",
+  "        self._sigtype = SignatureType(val & 0x7F)\n\n    @sdproperty\n    def pubalg(self):\n        return self._pubalg\n\n    @pubalg.register(int)\n    @pubalg.register(PubKeyAlgorithm)\n    def pubalg_int(self, val):\n        self._pubalg = PubKeyAlgorithm(val)\n\n        sigs", 'C01.5')
+M('C01', 'key-algorithm-getter-normalises', PGP, "        return self._signature.pubalg\n", "        alg = self._signature.pubalg\n        return PubKeyAlgorithm.RSAEncryptOrSign if alg in {PubKeyAlgorithm.RSAEncrypt, PubKeyAlgorithm.RSASign} else alg\n", 'C01.5')
+M('C01', 'parse-halg-before-pubalg', PK, "        self.sigtype = packet[0]\n        del packet[0]\n\n        self.pubalg = packet[0]\n        del packet[0]\n\n        self.halg = packet[0]\n        del packet[0]\n\n        self.subpackets.parse(packet)",
+  "        self.sigtype = packet[0]\n        del packet[0]\n\n        self.halg = packet[0]\n        del packet[0]\n\n        self.pubalg = packet[0]\n        del packet[0]\n\n        self.subpackets.parse(packet)", 'C01.5')
+
 # ---- further spellings of the same functions (generalisation guards)
 T('C17', 'twin-pred-len-list', CO, _PRED,
   "        hits = [f for f in (SecurityIssues.WrongSig, SecurityIssues.Expired, SecurityIssues.Disabled, SecurityIssues.Invalid, SecurityIssues.NoSelfSignature) if f & self]\n        return len(hits) > 0")
@@ -198,7 +266,6 @@ T('C01', 'twin-key-alias', PGP, "                    verified = self._key.verify
   "                    keypkt = self._key\n                    verified = keypkt.verify(sig.hashdata(subj), sig.__sig__, getattr(hashes, sig.hash_algorithm.name)())")
 T('C01', 'twin-subkey-alias', PGP, "                sigv &= self.subkeys[sig.signer].verify(subj, sig)",
   "                signing_subkey = self.subkeys[sig.signer]\n                sigv &= signing_subkey.verify(subj, sig)")
-_EXPIRED = "        expires = self.expires_at\n        if expires is not None:\n            return expires <= datetime.now(timezone.utc)\n\n        return False"
 T('C17', 'twin-expired-now-first', PGP, "            return expires <= datetime.now(timezone.utc)", "            now = datetime.now(timezone.utc)\n            return now >= expires")
 T('C17', 'twin-expired-guard-first', PGP, _EXPIRED,
   "        deadline = self.expires_at\n        if deadline is None:\n            return False\n\n        return not deadline > datetime.now(timezone.utc)")
@@ -1214,6 +1281,233 @@ T('C05', 'twin-hl-order', FL, "        hashed_raw = packet[:2 + hl]", "        h
 T('C05', 'twin-is-none-form', FL, "        if self._hashed_raw is not None:\n            # signatures are computed over the octets that were received, not over a re-encoding of them\n            return bytearray(self._hashed_raw)\n\n        _bytes = bytearray()\n        _bytes += self.int_to_bytes(sum(len(sp) for sp in self._hashed_sp.values()), 2)\n        for hsp in self._hashed_sp.values():\n            _bytes += hsp.__bytearray__()\n        return _bytes",
   "        if self._hashed_raw is None:\n            _bytes = bytearray()\n            _bytes += self.int_to_bytes(sum(len(sp) for sp in self._hashed_sp.values()), 2)\n            for hsp in self._hashed_sp.values():\n                _bytes += hsp.__bytearray__()\n            return _bytes\n        return bytearray(self._hashed_raw)")
 
+# ----------------------------------------------------------------------------------------------- C02 / C05 hardening (value-based rules)
+HBA = ("        _bytes = bytearray()\n        _bytes += self.int_to_bytes(sum(len(sp) for sp in self._hashed_sp.values()), 2)\n"
+       "        for hsp in self._hashed_sp.values():\n            _bytes += hsp.__bytearray__()\n        return _bytes\n")
+UHBA = ("        _bytes = bytearray()\n        _bytes += self.int_to_bytes(sum(len(sp) for sp in self._unhashed_sp.values()), 2)\n"
+        "        for uhsp in self._unhashed_sp.values():\n            _bytes += uhsp.__bytearray__()\n        return _bytes\n")
+EDFS = ("        lsig = len(sig)\n        if lsig % 2 != 0:\n            raise PGPError(\"malformed EdDSA signature\")\n        split = lsig // 2\n"
+        "        self.r = MPI(self.bytes_to_int(sig[:split]))\n        self.s = MPI(self.bytes_to_int(sig[split:]))\n")
+T('C02', 'twin-eddsa-divmod', FL, EDFS,
+  "        half, odd = divmod(len(sig), 2)\n        if odd:\n            raise PGPError(\"malformed EdDSA signature\")\n"
+  "        self.r = MPI(self.bytes_to_int(sig[:half]))\n        self.s = MPI(self.bytes_to_int(sig[half:]))\n")
+T('C02', 'twin-eddsa-param-rename', FL, "class EdDSASignature(DSASignature):\n    def from_signer(self, sig):\n" + EDFS,
+  "class EdDSASignature(DSASignature):\n    def from_signer(self, raw):\n        n = len(raw)\n        if n % 2:\n            raise PGPError(\"malformed EdDSA signature\")\n"
+  "        r_octets, s_octets = raw[:n // 2], raw[n // 2:]\n        self.r = MPI(self.bytes_to_int(r_octets))\n        self.s = MPI(self.bytes_to_int(s_octets))\n")
+T('C02', 'twin-area-helper', FL, HBA + "\n    def __unhashbytearray__(self):\n" + UHBA,
+  "        return self._encode_area(self._hashed_sp)\n\n    def __unhashbytearray__(self):\n        return self._encode_area(self._unhashed_sp)\n\n"
+  "    def _encode_area(self, area):\n        subpackets = list(area.values())\n        _bytes = bytearray(self.int_to_bytes(sum(len(sp) for sp in subpackets), 2))\n"
+  "        for sp in subpackets:\n            _bytes += sp.__bytearray__()\n        return _bytes\n")
+T('C02', 'twin-area-join-len-of-body', FL, UHBA,
+  "        body = b''.join(sp.__bytearray__() for sp in self._unhashed_sp.values())\n        return bytearray(self.int_to_bytes(len(body), 2) + body)\n")
+T('C02', 'twin-area-sum-map', FL, UHBA,
+  "        members = self._unhashed_sp.values()\n        out = bytearray(self.int_to_bytes(sum([len(m) for m in members]), 2))\n        out += b''.join([m.__bytearray__() for m in members])\n        return out\n")
+T('C02', 'twin-dsa-sig-genexp', FL, "        seq = Sequence(componentType=NamedTypes(*[NamedType(n, Integer()) for n in self.__mpis__]))\n        for n in self.__mpis__:\n            seq.setComponentByName(n, getattr(self, n))\n\n        return encoder.encode(seq)",
+  "        components = NamedTypes(*(NamedType(name, Integer()) for name in self.__mpis__))\n        der = Sequence(componentType=components)\n        for name in reversed(self.__mpis__):\n            der.setComponentByName(name, getattr(self, name))\n        encoded = encoder.encode(der)\n        return encoded")
+T('C02', 'twin-rsa-from-signer-rename', FL, "    def from_signer(self, sig):\n        self.md_mod_n = MPI(self.bytes_to_int(sig))", "    def from_signer(self, signer_output):\n        value = self.bytes_to_int(signer_output)\n        self.md_mod_n = MPI(value)")
+T('C02', 'twin-keymaterial-sign-rename', FL, "    def sign(self, sigdata, hash_alg):\n        return self.__privkey__().sign(sigdata, padding.PKCS1v15(), hash_alg)",
+  "    def sign(self, tbs, halg):\n        key = self.__privkey__()\n        scheme = padding.PKCS1v15()\n        return key.sign(tbs, scheme, halg)")
+T('C02', 'twin-privkeyv4-sign-rename', PK, "    def sign(self, sigdata, hash_alg):\n        return self.keymaterial.sign(sigdata, hash_alg)", "    def sign(self, data, hasher):\n        km = self.keymaterial\n        return km.sign(data, hasher)")
+T('C02', 'twin-eddsa-sign-no-rebind', FL, "        sigdata = digest.finalize()\n        return self.__privkey__().sign(sigdata)", "        prehashed = digest.finalize()\n        return self.__privkey__().sign(prehashed)")
+T('C02', 'twin-can-sign-or-chain', CO, "        return self in {PubKeyAlgorithm.RSAEncryptOrSign, PubKeyAlgorithm.DSA, PubKeyAlgorithm.ECDSA, PubKeyAlgorithm.EdDSA}",
+  "        return (self is PubKeyAlgorithm.RSAEncryptOrSign or self is PubKeyAlgorithm.DSA\n                or self == PubKeyAlgorithm.ECDSA or self == PubKeyAlgorithm.EdDSA)")
+T('C02', 'twin-pubalg-if-chain', PK, "        sigs = {\n            PubKeyAlgorithm.RSAEncryptOrSign: RSASignature,\n            PubKeyAlgorithm.RSAEncrypt: RSASignature,\n            PubKeyAlgorithm.RSASign: RSASignature,\n            PubKeyAlgorithm.DSA: DSASignature,\n            PubKeyAlgorithm.ECDSA: ECDSASignature,\n            PubKeyAlgorithm.EdDSA: EdDSASignature,\n        }\n\n        self.signature = sigs.get(self.pubalg, OpaqueSignature)()",
+  "        alg = self._pubalg\n        if alg in (PubKeyAlgorithm.RSAEncryptOrSign, PubKeyAlgorithm.RSAEncrypt, PubKeyAlgorithm.RSASign):\n            self.signature = RSASignature()\n        elif alg == PubKeyAlgorithm.DSA:\n            self.signature = DSASignature()\n        elif alg == PubKeyAlgorithm.ECDSA:\n            self.signature = ECDSASignature()\n        elif alg == PubKeyAlgorithm.EdDSA:\n            self.signature = EdDSASignature()\n        else:\n            self.signature = OpaqueSignature()")
+T('C02', 'twin-pubalg-table-subscript', PK, "        self.signature = sigs.get(self.pubalg, OpaqueSignature)()", "        cls = sigs[self.pubalg] if self.pubalg in sigs else OpaqueSignature\n        self.signature = cls()")
+T('C02', 'twin-addnew-hashed-positional', PGP, "            sig._signature.subpackets.addnew('Policy', hashed=True, uri=policy_uri)", "            sig._signature.subpackets.addnew('Policy', True, uri=policy_uri)")
+T('C02', 'twin-addnew-options-dict', PGP, "            sig._signature.subpackets.addnew('Policy', hashed=True, uri=policy_uri)", "            sig._signature.subpackets.addnew('Policy', **{'hashed': True, 'uri': policy_uri})")
+T('C02', 'twin-addnew-param-rename', FL, "    def addnew(self, spname, hashed=False, **kwargs):\n        nsp = getattr(self._spmodule, spname)()\n        for p, v in kwargs.items():\n            if hasattr(nsp, p):\n                setattr(nsp, p, v)\n        nsp.update_hlen()\n        if hashed:\n            self['h_' + spname] = nsp\n\n        else:\n            self[spname] = nsp",
+  "    def addnew(self, name, hashed=False, **options):\n        new = getattr(self._spmodule, name)()\n        for attr, value in options.items():\n            if hasattr(new, attr):\n                setattr(new, attr, value)\n        new.update_hlen()\n        key = 'h_' + name if hashed else name\n        self[key] = new")
+T('C02', 'twin-hash2-via-packet-field', PGP, "        h2 = sig.hash_algorithm.hasher\n        h2.update(sigdata)", "        h2 = sig._signature.halg.hasher\n        h2.update(sigdata)")
+T('C02', 'twin-signer-hash-via-packet-field', PGP, "        _sig = self._key.sign(sigdata, getattr(hashes, sig.hash_algorithm.name)())", "        halg = sig._signature.halg\n        hash_object = getattr(hashes, halg.name)()\n        _sig = self._key.sign(sigdata, hash_object)")
+T('C02', 'twin-pop-tuple-assign', PGP, "        expires = prefs.pop('expires', None)\n        notation = prefs.pop('notation', None)\n", "        expires, notation = prefs.pop('expires', None), prefs.pop('notation', None)\n")
+T('C02', 'twin-trailer-len-arith', PGP, "        hlen = len(hcontext)\n", "        hlen = len(self._signature.subpackets.__hashbytearray__()) + 2 + 2\n")
+T('C02', 'twin-canon-compiled-regex', PGP, "            _data += re.subn(br'\\r?\\n', b'\\r\\n', subject)[0]", "            line_ending = re.compile(br'\\r?\\n')\n            _data += line_ending.sub(b'\\r\\n', subject)")
+T('C02', 'twin-revoke-guard-clauses', PGP, "            if target.is_primary:\n                sig_type = SignatureType.KeyRevocation\n\n            else:\n                sig_type = SignatureType.SubkeyRevocation",
+  "            sig_type = SignatureType.KeyRevocation if target.is_primary else SignatureType.SubkeyRevocation")
+M('C02', 'certify-signs-self', PGP, "                    sig._signature.subpackets.addnew('RegularExpression', hashed=True, regex=regex)\n\n        return self._sign(subject, sig, **prefs)",
+  "                    sig._signature.subpackets.addnew('RegularExpression', hashed=True, regex=regex)\n\n        return self._sign(self, sig, **prefs)", 'C02.1c')
+M('C02', 'update-hlen-before-from-signer', PGP, "        sig._signature.signature.from_signer(_sig)\n        sig._signature.update_hlen()", "        sig._signature.update_hlen()\n        sig._signature.signature.from_signer(_sig)", 'C02.2')
+M('C02', 'hash2-over-subject', PGP, "        h2.update(sigdata)\n        sig._signature.hash2", "        h2.update(bytearray(subject))\n        sig._signature.hash2", 'C02.2')
+M('C02', 'rsa-sign-fixed-hash', FL, "        return self.__privkey__().sign(sigdata, padding.PKCS1v15(), hash_alg)", "        return self.__privkey__().sign(sigdata, padding.PKCS1v15(), hashes.SHA256())", 'C02.2')
+M('C02', 'ecdsa-sign-prehashed-twice', FL, "        return self.__privkey__().sign(sigdata, ec.ECDSA(hash_alg))", "        return self.__privkey__().sign(sigdata, ec.ECDSA(utils.Prehashed(hash_alg)))", 'C02.2')
+M('C02', 'subpacket-filed-after-hashdata', PGP, "        sigdata = sig.hashdata(subject)\n        h2 = sig.hash_algorithm.hasher", "        sigdata = sig.hashdata(subject)\n        sig._signature.subpackets['h_Features'] = Features()\n        h2 = sig.hash_algorithm.hasher", 'C02.2')
+M('C02', 'addnew-positional-unhashed', PGP, "            sig._signature.subpackets.addnew('Policy', hashed=True, uri=policy_uri)", "            sig._signature.subpackets.addnew('Policy', False, uri=policy_uri)", 'C02.3')
+M('C02', 'addnew-dict-unknown-key', PGP, "            sig._signature.subpackets.addnew('Policy', hashed=True, uri=policy_uri)", "            sig._signature.subpackets.addnew('Policy', hashed=True, **{'url': policy_uri})", 'C02.3')
+M('C02', 'addnew-files-unhashed-under-hashed-key', FL, "        if hashed:\n            self['h_' + spname] = nsp\n\n        else:\n            self[spname] = nsp", "        self['h_' + spname] = nsp", 'C02.3')
+M('C02', 'pubalg-ecdsa-as-dsa', PK, "            PubKeyAlgorithm.ECDSA: ECDSASignature,\n            PubKeyAlgorithm.EdDSA: EdDSASignature,\n        }", "            PubKeyAlgorithm.ECDSA: DSASignature,\n            PubKeyAlgorithm.EdDSA: EdDSASignature,\n        }", 'C02.4')
+M('C02', 'pubalg-eddsa-missing', PK, "            PubKeyAlgorithm.ECDSA: ECDSASignature,\n            PubKeyAlgorithm.EdDSA: EdDSASignature,\n        }", "            PubKeyAlgorithm.ECDSA: ECDSASignature,\n        }", 'C02.4')
+M('C02', 'can-sign-drops-eddsa', CO, "        return self in {PubKeyAlgorithm.RSAEncryptOrSign, PubKeyAlgorithm.DSA, PubKeyAlgorithm.ECDSA, PubKeyAlgorithm.EdDSA}", "        return self in {PubKeyAlgorithm.RSAEncryptOrSign, PubKeyAlgorithm.DSA, PubKeyAlgorithm.ECDSA}", 'C02.4')
+M('C02', 'eddsa-halves-unequal', FL, "        split = lsig // 2\n", "        split = lsig // 2 + 1\n", 'C02.4')
+M('C02', 'eddsa-s-from-start', FL, "        self.s = MPI(self.bytes_to_int(sig[split:]))", "        self.s = MPI(self.bytes_to_int(sig[:split]))", 'C02.4')
+M('C02', 'dsa-sig-both-from-r', FL, "            seq.setComponentByName(n, getattr(self, n))", "            seq.setComponentByName(n, getattr(self, 'r'))", 'C02.4')
+M('C02', 'dsa-sig-not-der', FL, "        return encoder.encode(seq)", "        return bytes(seq)", 'C02.4')
+M('C02', 'hashed-area-counts-unhashed', FL, "        _bytes += self.int_to_bytes(sum(len(sp) for sp in self._hashed_sp.values()), 2)", "        _bytes += self.int_to_bytes(sum(len(sp) for sp in self._unhashed_sp.values()), 2)", 'C02.5')
+M('C02', 'unhashed-area-skips-first', FL, "        for uhsp in self._unhashed_sp.values():\n            _bytes += uhsp.__bytearray__()\n        return _bytes\n\n    def __len__(self):  # pragma: no cover\n        return sum(sp.header.length", "        for uhsp in list(self._unhashed_sp.values())[1:]:\n            _bytes += uhsp.__bytearray__()\n        return _bytes\n\n    def __len__(self):  # pragma: no cover\n        return sum(sp.header.length", 'C02.5')
+M('C02', 'hashed-area-filtered', FL, "        for hsp in self._hashed_sp.values():\n            _bytes += hsp.__bytearray__()", "        for hsp in self._hashed_sp.values():\n            if hsp.header.critical:\n                continue\n            _bytes += hsp.__bytearray__()", 'C02.5')
+M('C02', 'hashed-area-len-one-octet', FL, "        _bytes += self.int_to_bytes(sum(len(sp) for sp in self._hashed_sp.values()), 2)", "        _bytes += self.int_to_bytes(sum(len(sp) for sp in self._hashed_sp.values()), 1)", 'C02.5')
+M('C02', 'trailer-len-plus-6', PGP, "        hlen = len(hcontext)\n", "        hlen = len(hcontext) + 6\n", 'C02.1')
+M('C02', 'canon-lf-only', PGP, "            _data += re.subn(br'\\r?\\n', b'\\r\\n', subject)[0]", "            _data += re.subn(br'\\r\\n', b'\\n', subject)[0]", 'C02.1')
+
+T('C05', 'twin-replay-slice-copy', FL, "            return bytearray(self._hashed_raw)\n", "            return self._hashed_raw[:]\n")
+T('C05', 'twin-replay-local-and-else', FL, "        if self._hashed_raw is not None:\n            # signatures are computed over the octets that were received, not over a re-encoding of them\n            return bytearray(self._hashed_raw)\n\n" + HBA,
+  "        received = self._hashed_raw\n        if received is None:\n            out = bytearray(self.int_to_bytes(sum(len(sp) for sp in self._hashed_sp.values()), 2))\n            for hsp in self._hashed_sp.values():\n                out += hsp.__bytearray__()\n        else:\n            out = bytearray(received)\n        return out\n")
+T('C05', 'twin-replay-not-is-none', FL, "        if self._hashed_raw is not None:\n            # signatures", "        if not (self._hashed_raw is None):\n            # signatures")
+T('C05', 'twin-copy-conditional', FL, "        sp._hashed_raw = copy.copy(self._hashed_raw)\n", "        sp._hashed_raw = None if self._hashed_raw is None else bytearray(self._hashed_raw)\n")
+T('C05', 'twin-copy-renamed-local', FL, "        sp = SubPackets()\n        sp._hashed_sp = self._hashed_sp.copy()\n        sp._unhashed_sp = self._unhashed_sp.copy()\n        sp._hashed_raw = copy.copy(self._hashed_raw)\n\n        return sp",
+  "        twin = SubPackets()\n        raw = self._hashed_raw\n        twin._hashed_sp = self._hashed_sp.copy()\n        twin._unhashed_sp = self._unhashed_sp.copy()\n        twin._hashed_raw = copy.copy(raw)\n        return twin")
+T('C05', 'twin-setitem-slice-test', FL, "        if key.startswith('h_'):\n            d, key = self._hashed_sp, key[2:]\n            self._hashed_raw = None\n", "        if key[:2] == 'h_':\n            key = key[2:]\n            d = self._hashed_sp\n            self._hashed_raw = None\n")
+T('C05', 'twin-setitem-guard-swapped', FL, "        d = self._unhashed_sp\n        if key.startswith('h_'):\n            d, key = self._hashed_sp, key[2:]\n            self._hashed_raw = None\n", "        if not key.startswith('h_'):\n            d = self._unhashed_sp\n        else:\n            self._hashed_raw = None\n            d, key = self._hashed_sp, key[2:]\n")
+T('C05', 'twin-parse-renames', FL, "        hl = self.bytes_to_int(packet[:2])\n        hashed_raw = packet[:2 + hl]\n        del packet[:2]", "        hashed_len = self.bytes_to_int(packet[0:2])\n        end = hashed_len + 2\n        received = bytearray(packet[:end])\n        del packet[:2]",
+  more=[(FL, "        while plen - len(packet) < hl:\n            sp = SignatureSP(packet)\n            self['h_' + sp.__class__.__name__] = sp\n        self._hashed_raw = hashed_raw\n",
+         "        while plen - len(packet) < hashed_len:\n            hsp = SignatureSP(packet)\n            name = hsp.__class__.__name__\n            self['h_{}'.format(name)] = hsp\n        self._hashed_raw = received\n")])
+T('C05', 'twin-sigv4-parse-index', PK, "        self.sigtype = packet[0]\n        del packet[0]\n\n        self.pubalg = packet[0]\n        del packet[0]\n\n        self.halg = packet[0]\n        del packet[0]\n",
+  "        self.sigtype = packet[0]\n        self.pubalg = packet[1]\n        self.halg = packet[2]\n        del packet[:3]\n")
+T('C05', 'twin-pgpsig-copy-temp', PGP, "        sig |= copy.copy(self._signature)\n        return sig", "        packet = copy.copy(self._signature)\n        sig |= packet\n        return sig")
+T('C05', 'twin-sigv4-copy-renamed', PK, "        spkt.subpackets = copy.copy(self.subpackets)\n", "        subpackets = copy.copy(self.subpackets)\n        spkt.subpackets = subpackets\n")
+T('C05', 'twin-setter-param-rename', PK, "    def sigtype_int(self, val):\n        self._sigtype = SignatureType(val)\n\n    @sdproperty\n    def pubalg(self):\n        return self._pubalg\n\n    @pubalg.register(int)\n    @pubalg.register(PubKeyAlgorithm)\n    def pubalg_int(self, val):\n        self._pubalg = PubKeyAlgorithm(val)\n\n        sigs = {",
+  "    def sigtype_int(self, octet):\n        sigtype = SignatureType(octet)\n        self._sigtype = sigtype\n\n    @sdproperty\n    def pubalg(self):\n        return self._pubalg\n\n    @pubalg.register(int)\n    @pubalg.register(PubKeyAlgorithm)\n    def pubalg_int(self, val):\n        self._pubalg = PubKeyAlgorithm(val)\n\n        sigs = {")
+T('C05', 'twin-canonical-bytes-temp', PK, "        _body += self.subpackets.__hashbytearray__()\n        _body += self.int_to_bytes(0, minlen=2)", "        hashed_area = self.subpackets.__hashbytearray__()\n        _body += hashed_area\n        _body += self.int_to_bytes(0, minlen=2)")
+M('C05', 'capture-view', FL, "        hashed_raw = packet[:2 + hl]", "        hashed_raw = memoryview(packet)[:2 + hl]", 'C05.1')
+M('C05', 'capture-off-by-one', FL, "        hashed_raw = packet[:2 + hl]", "        hashed_raw = packet[:1 + hl]", 'C05.1')
+M('C05', 'capture-after-first-subpacket', FL, "        hashed_raw = packet[:2 + hl]\n        del packet[:2]", "        del packet[:2]", 'C05.1',
+  more=[(FL, "        self._hashed_raw = hashed_raw\n", "        self._hashed_raw = self.int_to_bytes(hl, 2) + packet[:hl]\n")])
+M('C05', 'replay-unless-unhashed-empty', FL, "        if self._hashed_raw is not None:\n            # signatures", "        if self._hashed_raw is not None and self._unhashed_sp:\n            # signatures", 'C05.2')
+M('C05', 'replay-alias-via-local', FL, "        if self._hashed_raw is not None:\n            # signatures are computed over the octets that were received, not over a re-encoding of them\n            return bytearray(self._hashed_raw)\n",
+  "        raw = self._hashed_raw\n        if raw is not None:\n            return raw\n", 'C05.2')
+M('C05', 'replay-inverted', FL, "        if self._hashed_raw is not None:\n            # signatures", "        if self._hashed_raw is None:\n            # signatures", 'C05.2')
+M('C05', 'replay-truncated', FL, "            return bytearray(self._hashed_raw)\n", "            return bytearray(self._hashed_raw[2:])\n", 'C05.2')
+M('C05', 'copy-aliases-capture', FL, "        sp._hashed_raw = copy.copy(self._hashed_raw)\n", "        sp._hashed_raw = self._hashed_raw\n", 'C05.3')
+M('C05', 'copy-capture-on-wrong-object', FL, "        sp._hashed_raw = copy.copy(self._hashed_raw)\n", "        self._hashed_raw = copy.copy(self._hashed_raw)\n", 'C05.3')
+M('C05', 'setitem-invalidates-always', FL, "        d = self._unhashed_sp\n        if key.startswith('h_'):\n            d, key = self._hashed_sp, key[2:]\n            self._hashed_raw = None\n", "        d = self._unhashed_sp\n        self._hashed_raw = None\n        if key.startswith('h_'):\n            d, key = self._hashed_sp, key[2:]\n", 'C05.3')
+M('C05', 'setitem-invalidates-on-unhashed', FL, "        if key.startswith('h_'):\n            d, key = self._hashed_sp, key[2:]\n            self._hashed_raw = None\n", "        if key.startswith('h_'):\n            d, key = self._hashed_sp, key[2:]\n        else:\n            self._hashed_raw = None\n", 'C05.3')
+M('C05', 'init-empty-capture', FL, "        self._hashed_raw = None\n\n    def __bytearray__(self):", "        self._hashed_raw = bytearray()\n\n    def __bytearray__(self):", 'C05.3')
+M('C05', 'update-hlen-rewrites-capture', FL, "    def update_hlen(self):\n        for sp in self:\n            sp.update_hlen()\n\n    def parse(self, packet):\n        hl =", "    def update_hlen(self):\n        for sp in self:\n            sp.update_hlen()\n        if self._hashed_raw is not None:\n            self._hashed_raw = self.int_to_bytes(len(self._hashed_raw) - 2, 2) + self._hashed_raw[2:]\n\n    def parse(self, packet):\n        hl =", 'C05.3')
+M('C05', 'sigv4-copy-shares-subpackets', PK, "        spkt.subpackets = copy.copy(self.subpackets)\n", "        spkt.subpackets = self.subpackets\n", 'C05.3')
+M('C05', 'pgpsig-copy-shares-packet', PGP, "        sig |= copy.copy(self._signature)\n        return sig", "        sig |= self._signature\n        return sig", 'C05.3')
+M('C05', 'canonical-bytes-reserialises', PK, "        _body += self.subpackets.__hashbytearray__()\n        _body += self.int_to_bytes(0, minlen=2)",
+  "        _body += self.int_to_bytes(sum(len(sp) for sp in self.subpackets._hashed_sp.values()), 2)\n        _body += b''.join(sp.__bytearray__() for sp in self.subpackets._hashed_sp.values())\n        _body += self.int_to_bytes(0, minlen=2)", 'C05.4')
+M('C05', 'parse-halg-pubalg-swapped', PK, "        self.pubalg = packet[0]\n        del packet[0]\n\n        self.halg = packet[0]\n        del packet[0]\n", "        self.halg = packet[0]\n        del packet[0]\n\n        self.pubalg = packet[0]\n        del packet[0]\n", 'C05.5')
+M('C05', 'halg-setter-maps-unknown', PK, "        except ValueError:  # pragma: no cover\n            self._halg = val\n\n    @property\n    def signature(self):", "        except ValueError:  # pragma: no cover\n            self._halg = HashAlgorithm.SHA256\n\n    @property\n    def signature(self):", 'C05.5')
+M('C05', 'type-getter-masks', PGP, "        return self._signature.sigtype\n", "        return SignatureType(self._signature.sigtype & 0x7F)\n", 'C05.5')
+
+SIGN_TAIL = ("        sigdata = sig.hashdata(subject)\n        h2 = sig.hash_algorithm.hasher\n        h2.update(sigdata)\n        sig._signature.hash2 = bytearray(h2.digest()[:2])\n\n"
+             "        _sig = self._key.sign(sigdata, getattr(hashes, sig.hash_algorithm.name)())\n        if _sig is NotImplemented:\n            raise NotImplementedError(self.key_algorithm)\n\n"
+             "        sig._signature.signature.from_signer(_sig)\n        sig._signature.update_hlen()\n\n        return sig\n")
+T('C02', 'twin-sign-tail-aliases', PGP, SIGN_TAIL,
+  "        packet = sig._signature\n        halg = sig.hash_algorithm\n        tbs = sig.hashdata(subject)\n        hasher = halg.hasher\n        hasher.update(tbs)\n        left16 = hasher.digest()[:2]\n        packet.hash2 = bytearray(left16)\n\n"
+  "        hash_object = getattr(hashes, halg.name)()\n        raw_signature = self._key.sign(tbs, hash_object)\n        if raw_signature is NotImplemented:\n            raise NotImplementedError(self.key_algorithm)\n\n"
+  "        packet.signature.from_signer(raw_signature)\n        packet.update_hlen()\n        return sig\n")
+T('C02', 'twin-sign-tail-guard-inverted', PGP, "        if _sig is NotImplemented:\n            raise NotImplementedError(self.key_algorithm)\n\n        sig._signature.signature.from_signer(_sig)\n        sig._signature.update_hlen()\n\n        return sig\n",
+  "        if _sig is not NotImplemented:\n            sig._signature.signature.from_signer(_sig)\n            sig._signature.update_hlen()\n            return sig\n        raise NotImplementedError(self.key_algorithm)\n")
+T('C02', 'twin-sign-subpackets-alias', PGP, "        if policy_uri is not None:\n            sig._signature.subpackets.addnew('Policy', hashed=True, uri=policy_uri)\n", "        area = sig._signature.subpackets\n        if policy_uri is not None:\n            area.addnew('Policy', hashed=True, uri=policy_uri)\n")
+T('C02', 'twin-sign-new-helper', PGP, "        sig = PGPSignature.new(sig_type, self.key_algorithm, hash_algo, self.fingerprint.keyid, created=prefs.pop('created', None))\n\n        return self._sign(subject, sig, **prefs)\n\n    @KeyAction(KeyFlags.Certify, is_unlocked=True, is_public=False)\n    def certify(",
+  "        sig = self._blank_signature(sig_type, hash_algo, prefs.pop('created', None))\n\n        return self._sign(subject, sig, **prefs)\n\n    def _blank_signature(self, sigtype, halg, created):\n        keyid = self.fingerprint.keyid\n        return PGPSignature.new(sigtype, self.key_algorithm, halg, keyid, created=created)\n\n    @KeyAction(KeyFlags.Certify, is_unlocked=True, is_public=False)\n    def certify(")
+T('C02', 'twin-sign-type-ifexp', PGP, "        sig_type = SignatureType.BinaryDocument\n        hash_algo = prefs.pop('hash', None)\n\n        if subject is None:\n            sig_type = SignatureType.Timestamp\n",
+  "        hash_algo = prefs.pop('hash', None)\n        sig_type = SignatureType.Timestamp if subject is None else SignatureType.BinaryDocument\n")
+T('C02', 'twin-new-keywords', PGP, "        sig = PGPSignature.new(SignatureType.DirectlyOnKey, self.key_algorithm, hash_algo, self.fingerprint.keyid, created=prefs.pop('created', None))",
+  "        created = prefs.pop('created', None)\n        sig = PGPSignature.new(sigtype=SignatureType.DirectlyOnKey, pkalg=self.key_algorithm, halg=hash_algo, signer=self.fingerprint.keyid, created=created)")
+T('C02', 'twin-bind-demorgan', PGP, "        if self.is_primary and not key.is_primary:\n            sig_type = SignatureType.Subkey_Binding\n\n        elif key.is_primary and not self.is_primary:\n            sig_type = SignatureType.PrimaryKey_Binding\n\n        else:  # pragma: no cover\n            raise PGPError\n",
+  "        if self.is_primary == key.is_primary:  # pragma: no cover\n            raise PGPError\n        if self.is_primary:\n            sig_type = SignatureType.Subkey_Binding\n        else:\n            sig_type = SignatureType.PrimaryKey_Binding\n")
+T('C02', 'twin-sigv4-writer-join', PK, "        _bytes = bytearray()\n        _bytes += super(Signature, self).__bytearray__()\n        _bytes += self.int_to_bytes(self.sigtype)\n        _bytes += self.int_to_bytes(self.pubalg)\n        _bytes += self.int_to_bytes(self.halg)\n        _bytes += self.subpackets.__bytearray__()\n        _bytes += self.hash2\n        _bytes += self.signature.__bytearray__()\n\n        return _bytes",
+  "        header = super(Signature, self).__bytearray__()\n        algs = bytearray([self.sigtype, self.pubalg, self.halg])\n        return bytearray(b''.join([header, algs, self.subpackets.__bytearray__(), self.hash2, self.signature.__bytearray__()]))")
+T('C02', 'twin-canonical-bytes-oneshot', PK, "        _hdr = bytearray()\n        _hdr += b'\\x88'\n        _hdr += self.int_to_bytes(len(_body), minlen=4)\n        return _hdr + _body", "        return bytearray(b'\\x88') + self.int_to_bytes(len(_body), 4) + _body")
+T('C02', 'twin-eddsa-sig-loop', FL, "        siglen = (EllipticCurveOID.Ed25519.key_size + 7) // 8\n        return self.int_to_bytes(self.r, siglen) + self.int_to_bytes(self.s, siglen)",
+  "        width = (EllipticCurveOID.Ed25519.key_size + 7) // 8\n        out = bytearray()\n        for value in (self.r, self.s):\n            out += self.int_to_bytes(value, width)\n        return out")
+T('C02', 'twin-rsa-sig-strip-temp', FL, "        return self.md_mod_n.to_mpibytes()[2:]", "        mpi = self.md_mod_n.to_mpibytes()\n        del mpi[:2]\n        return mpi")
+T('C02', 'twin-ecdsa-from-signer-index', FL, "        seq, _ = decoder.decode(sig)\n        self.r = MPI(seq[0])\n        self.s = MPI(seq[1])", "        decoded = decoder.decode(sig)[0]\n        r, s = decoded[0], decoded[1]\n        self.r, self.s = MPI(r), MPI(s)")
+T('C02', 'twin-signature-writer-comprehension', FL, "        _bytes = bytearray()\n        for i in self:\n            _bytes += i.to_mpibytes()\n        return _bytes\n\n    @abc.abstractproperty\n    def __sig__(self):", "        return bytearray(b''.join(mpi.to_mpibytes() for mpi in self))\n\n    @abc.abstractproperty\n    def __sig__(self):")
+T('C02', 'twin-hasher-getter-temp', CO, "    def hasher(self):\n        return hashlib.new(self.name)", "    def hasher(self):\n        name = self.name\n        return hashlib.new(name)")
+T('C02', 'twin-key-hashdata-temp', PGP, "        pub = self._key if self.is_public else self._key.pubkey()\n", "        if self.is_public:\n            pub = self._key\n        else:\n            pub = self._key.pubkey()\n")
+M('C02', 'bind-signs-self', PGP, "        return self._sign(key, sig, **prefs)\n\n    def is_considered_insecure", "        return self._sign(self, sig, **prefs)\n\n    def is_considered_insecure", 'C02.1c')
+M('C02', 'sign-tail-hash2-before-subpackets-final', PGP, "        if prefs.pop('include_issuer_fingerprint', True):\n            if isinstance(self._key, PrivKeyV4):\n                sig._signature.subpackets.addnew('IssuerFingerprint', hashed=True, _version=4, _issuer_fpr=self.fingerprint)\n\n        sigdata = sig.hashdata(subject)\n",
+  "        sigdata = sig.hashdata(subject)\n        if prefs.pop('include_issuer_fingerprint', True):\n            if isinstance(self._key, PrivKeyV4):\n                sig._signature.subpackets.addnew('IssuerFingerprint', hashed=True, _version=4, _issuer_fpr=self.fingerprint)\n\n", 'C02.2')
+M('C02', 'eddsa-sig-r-width-short', FL, "        return self.int_to_bytes(self.r, siglen) + self.int_to_bytes(self.s, siglen)", "        return self.int_to_bytes(self.r) + self.int_to_bytes(self.s, siglen)", 'C02.4')
+M('C02', 'sigv4-writer-drops-hash2', PK, "        _bytes += self.subpackets.__bytearray__()\n        _bytes += self.hash2\n        _bytes += self.signature.__bytearray__()\n\n        return _bytes", "        _bytes += self.subpackets.__bytearray__()\n        _bytes += self.signature.__bytearray__()\n\n        return _bytes", 'C02.5')
+
+T('C05', 'twin-parse-area-helper', FL, "        plen = len(packet)\n        while plen - len(packet) < hl:\n            sp = SignatureSP(packet)\n            self['h_' + sp.__class__.__name__] = sp\n        self._hashed_raw = hashed_raw\n\n        uhl = self.bytes_to_int(packet[:2])\n        del packet[:2]\n\n        plen = len(packet)\n        while plen - len(packet) < uhl:\n            sp = SignatureSP(packet)\n            self[sp.__class__.__name__] = sp\n",
+  "        self._parse_area(packet, hl, 'h_')\n        self._hashed_raw = hashed_raw\n\n        uhl = self.bytes_to_int(packet[:2])\n        del packet[:2]\n        self._parse_area(packet, uhl, '')\n\n    def _parse_area(self, buf, length, prefix):\n        start = len(buf)\n        while start - len(buf) < length:\n            sub = SignatureSP(buf)\n            self[prefix + sub.__class__.__name__] = sub\n")
+T('C05', 'twin-replay-helper', FL, "        if self._hashed_raw is not None:\n            # signatures are computed over the octets that were received, not over a re-encoding of them\n            return bytearray(self._hashed_raw)\n\n" + HBA,
+  "        if self._hashed_raw is not None:\n            return self._received_area()\n        return self._built_area()\n\n    def _received_area(self):\n        return bytearray(self._hashed_raw)\n\n    def _built_area(self):\n" + HBA)
+T('C05', 'twin-init-order', FL, "        self._hashed_sp = collections.OrderedDict()\n        self._unhashed_sp = collections.OrderedDict()\n        # the hashed subpacket area exactly as it was received, if this was parsed and not modified since\n        self._hashed_raw = None\n",
+  "        self._hashed_raw = None\n        self._hashed_sp, self._unhashed_sp = collections.OrderedDict(), collections.OrderedDict()\n")
+M('C05', 'parse-area-helper-files-unhashed', FL, "        plen = len(packet)\n        while plen - len(packet) < hl:\n            sp = SignatureSP(packet)\n            self['h_' + sp.__class__.__name__] = sp\n        self._hashed_raw = hashed_raw\n",
+  "        self._hashed_raw = hashed_raw\n        plen = len(packet)\n        while plen - len(packet) < hl:\n            sp = SignatureSP(packet)\n            self['h_' + sp.__class__.__name__] = sp\n", 'C05.1')
+
+# families found by independent refactoring runs (24 patches by two sub-agents that never saw the rules)
+SIGS_TABLE = ("        sigs = {\n            PubKeyAlgorithm.RSAEncryptOrSign: RSASignature,\n            PubKeyAlgorithm.RSAEncrypt: RSASignature,\n            PubKeyAlgorithm.RSASign: RSASignature,\n"
+              "            PubKeyAlgorithm.DSA: DSASignature,\n            PubKeyAlgorithm.ECDSA: ECDSASignature,\n            PubKeyAlgorithm.EdDSA: EdDSASignature,\n        }\n\n"
+              "        self.signature = sigs.get(self.pubalg, OpaqueSignature)()")
+CLS_TABLE = ("    _sigfields = {\n        PubKeyAlgorithm.RSAEncryptOrSign: RSASignature,\n        PubKeyAlgorithm.RSAEncrypt: RSASignature,\n        PubKeyAlgorithm.RSASign: RSASignature,\n"
+             "        PubKeyAlgorithm.DSA: DSASignature,\n        PubKeyAlgorithm.ECDSA: ECDSASignature,\n        PubKeyAlgorithm.EdDSA: EdDSASignature,\n    }\n\n")
+T('C02', 'twin-pubalg-class-table-keyerror', PK, SIGS_TABLE, "        try:\n            fieldcls = self._sigfields[self.pubalg]\n\n        except KeyError:\n            fieldcls = OpaqueSignature\n\n        self.signature = fieldcls()",
+  more=[(PK, "    __ver__ = 4\n\n    @sdproperty\n    def sigtype(self):", "    __ver__ = 4\n\n" + CLS_TABLE + "    @sdproperty\n    def sigtype(self):")])
+T('C02', 'twin-pubalg-class-table-get', PK, SIGS_TABLE, "        pubalg = self._pubalg\n        sigcls = self._sigfields.get(pubalg, OpaqueSignature)\n        self.signature = sigcls()",
+  more=[(PK, "    __ver__ = 4\n\n    @sdproperty\n    def sigtype(self):", "    __ver__ = 4\n\n" + CLS_TABLE + "    @sdproperty\n    def sigtype(self):")])
+T('C02', 'twin-sigv4-writer-bound-method-alias', PK, "        _bytes = bytearray()\n        _bytes += super(Signature, self).__bytearray__()\n        _bytes += self.int_to_bytes(self.sigtype)\n        _bytes += self.int_to_bytes(self.pubalg)\n        _bytes += self.int_to_bytes(self.halg)\n        _bytes += self.subpackets.__bytearray__()\n        _bytes += self.hash2\n        _bytes += self.signature.__bytearray__()\n\n        return _bytes",
+  "        to_bytes = self.int_to_bytes\n        return (bytearray(super(Signature, self).__bytearray__())\n                + to_bytes(self.sigtype)\n                + to_bytes(self.pubalg)\n                + to_bytes(self.halg)\n                + self.subpackets.__bytearray__()\n                + self.hash2\n                + self.signature.__bytearray__())")
+T('C02', 'twin-canonical-bytes-field-loop', PK, "        _body += self.int_to_bytes(self.header.version)\n        _body += self.int_to_bytes(self.sigtype)\n        _body += self.int_to_bytes(self.pubalg)\n        _body += self.int_to_bytes(self.halg)\n        _body += self.subpackets.__hashbytearray__()\n        _body += self.int_to_bytes(0, minlen=2)  # empty unhashed subpackets",
+  "        for field in (self.header.version, self.sigtype, self.pubalg, self.halg):\n            _body += self.int_to_bytes(field)\n        _body += self.subpackets.__hashbytearray__()\n        _body += b'\\x00\\x00'  # empty unhashed subpackets")
+T('C02', 'twin-ecdsa-from-signer-zip-setattr', FL, "        seq, _ = decoder.decode(sig)\n        self.r = MPI(seq[0])\n        self.s = MPI(seq[1])", "        decoded = decoder.decode(sig)\n        seq, _ = decoded\n        for name, component in zip(self.__mpis__, (0, 1)):\n            setattr(self, name, MPI(seq[component]))")
+T('C02', 'twin-eddsa-from-signer-negative-slice', FL, EDFS, "        split, odd = divmod(len(sig), 2)\n        if odd:\n            raise PGPError(\"malformed EdDSA signature\")\n        self.r = MPI(self.bytes_to_int(sig[:split]))\n        self.s = MPI(self.bytes_to_int(sig[-split:]))\n")
+T('C02', 'twin-eddsa-sig-join', FL, "        return self.int_to_bytes(self.r, siglen) + self.int_to_bytes(self.s, siglen)", "        return b''.join(self.int_to_bytes(part, siglen) for part in (self.r, self.s))")
+T('C02', 'twin-hasher-keyword', CO, "        return hashlib.new(self.name)", "        algname = self.name\n        context = hashlib.new(name=algname)\n        return context")
+T('C02', 'twin-notation-writer-loop-and-sum', SS, "        name = self.name.encode()\n        value = self.value if isinstance(self.value, bytearray) else self.value.encode()\n        _bytes += self.int_to_bytes(sum(self.flags)) + b'\\x00\\x00\\x00'\n        _bytes += self.int_to_bytes(len(name), 2)\n        _bytes += self.int_to_bytes(len(value), 2)\n        _bytes += name\n        _bytes += value\n",
+  "        name_octets = self.name.encode()\n        if isinstance(self.value, bytearray):\n            value_octets = self.value\n\n        else:\n            value_octets = self.value.encode()\n\n        _bytes += self.int_to_bytes(sum(self.flags))\n        _bytes += b'\\x00' * 3\n        for octets in (name_octets, value_octets):\n            _bytes += self.int_to_bytes(len(octets), 2)\n        _bytes += name_octets + value_octets\n")
+M('C02', 'notation-writer-drops-value', SS, "        _bytes += name\n        _bytes += value\n", "        _bytes += name\n", 'C02.6')
+M('C02', 'pubalg-class-table-keyerror-wrong-class', PK, SIGS_TABLE, "        try:\n            fieldcls = self._sigfields[self.pubalg]\n\n        except KeyError:\n            fieldcls = OpaqueSignature\n\n        self.signature = fieldcls()",
+  'C02.4', more=[(PK, "    __ver__ = 4\n\n    @sdproperty\n    def sigtype(self):", "    __ver__ = 4\n\n" + CLS_TABLE.replace("PubKeyAlgorithm.EdDSA: EdDSASignature", "PubKeyAlgorithm.EdDSA: DSASignature") + "    @sdproperty\n    def sigtype(self):")])
+M('C02', 'ecdsa-from-signer-zip-swapped', FL, "        seq, _ = decoder.decode(sig)\n        self.r = MPI(seq[0])\n        self.s = MPI(seq[1])", "        seq, _ = decoder.decode(sig)\n        for name, component in zip(self.__mpis__, (1, 0)):\n            setattr(self, name, MPI(seq[component]))", 'C02.4')
+T('C05', 'twin-sigv4-parse-setattr-loop', PK, "        self.sigtype = packet[0]\n        del packet[0]\n\n        self.pubalg = packet[0]\n        del packet[0]\n\n        self.halg = packet[0]\n        del packet[0]\n",
+  "        for field in ('sigtype', 'pubalg', 'halg'):\n            setattr(self, field, packet[0])\n            del packet[0]\n")
+T('C05', 'twin-sigv4-copy-setattr-loop', PK, "        spkt.subpackets = copy.copy(self.subpackets)\n        spkt.hash2 = copy.copy(self.hash2)\n        spkt.signature = copy.copy(self.signature)\n",
+  "        for attr in ('subpackets', 'hash2', 'signature'):\n            setattr(spkt, attr, copy.copy(getattr(self, attr)))\n")
+T('C05', 'twin-pgpsig-copy-or', PGP, "        sig |= copy.copy(self._signature)\n        return sig", "        sigpkt = copy.copy(self._signature)\n        return sig | sigpkt")
+T('C05', 'twin-halg-setter-single-store', PK, "        try:\n            self._halg = HashAlgorithm(val)\n\n        except ValueError:  # pragma: no cover\n            self._halg = val\n\n    @property\n    def signature(self):", "        try:\n            halg = HashAlgorithm(val)\n\n        except ValueError:  # pragma: no cover\n            halg = val\n\n        self._halg = halg\n\n    @property\n    def signature(self):")
+M('C05', 'sigv4-parse-setattr-loop-wrong-order', PK, "        self.sigtype = packet[0]\n        del packet[0]\n\n        self.pubalg = packet[0]\n        del packet[0]\n\n        self.halg = packet[0]\n        del packet[0]\n",
+  "        for field in ('sigtype', 'halg', 'pubalg'):\n            setattr(self, field, packet[0])\n            del packet[0]\n", 'C05.5')
+M('C05', 'sigv4-copy-setattr-loop-skips-subpackets', PK, "        spkt.subpackets = copy.copy(self.subpackets)\n        spkt.hash2 = copy.copy(self.hash2)\n        spkt.signature = copy.copy(self.signature)\n",
+  "        spkt.subpackets = self.subpackets\n        for attr in ('hash2', 'signature'):\n            setattr(spkt, attr, copy.copy(getattr(self, attr)))\n", 'C05.3')
+
+# defects found by an independent mutant run that the pre-hardening rules missed as well
+M('C02', 'bind-names-bound-keys-algorithm', PGP, "            raise PGPError\n\n        sig = PGPSignature.new(sig_type, self.key_algorithm, hash_algo, self.fingerprint.keyid, created=prefs.pop('created', None))",
+  "            raise PGPError\n\n        sig = PGPSignature.new(sig_type, key.key_algorithm, hash_algo, self.fingerprint.keyid, created=prefs.pop('created', None))", 'C02.1c')
+M('C05', 'update-hlen-drops-capture', FL, "    def update_hlen(self):\n        for sp in self:\n            sp.update_hlen()\n\n    def parse(self, packet):\n        hl =", "    def update_hlen(self):\n        for sp in self:\n            sp.update_hlen()\n        self._hashed_raw = None  # lengths were recomputed\n\n    def parse(self, packet):\n        hl =", 'C05.3')
+M('C05', 'copy-refiles-hashed-after-capture', FL, "        sp._hashed_sp = self._hashed_sp.copy()\n        sp._unhashed_sp = self._unhashed_sp.copy()\n        sp._hashed_raw = copy.copy(self._hashed_raw)\n",
+  "        sp._unhashed_sp = self._unhashed_sp.copy()\n        sp._hashed_raw = copy.copy(self._hashed_raw)\n        for (spname, _), hsp in self._hashed_sp.items():\n            sp['h_' + spname] = hsp\n", 'C05.3')
+T('C05', 'twin-setitem-invalidate-helper', FL, "            d, key = self._hashed_sp, key[2:]\n            self._hashed_raw = None\n", "            d, key = self._hashed_sp, key[2:]\n            self._forget_received()\n",
+  more=[(FL, "    def __getitem__(self, key):\n        if isinstance(key, tuple):  # pragma: no cover\n            return self._hashed_sp.get", "    def _forget_received(self):\n        self._hashed_raw = None\n\n    def __getitem__(self, key):\n        if isinstance(key, tuple):  # pragma: no cover\n            return self._hashed_sp.get")])
+T('C05', 'twin-copy-refile-unhashed', FL, "        sp._unhashed_sp = self._unhashed_sp.copy()\n        sp._hashed_raw = copy.copy(self._hashed_raw)\n", "        sp._hashed_raw = copy.copy(self._hashed_raw)\n        sp._unhashed_sp = self._unhashed_sp.copy()\n")
+
+# families from the second independent round (bolder refactorings) and the held-out twins
+T('C02', 'twin-addnew-table-loop', PGP, "        if usage is not None:\n            sig._signature.subpackets.addnew('KeyFlags', hashed=True, flags=usage)\n\n        if exportable is not None:\n            sig._signature.subpackets.addnew('ExportableCertification', hashed=True, bflag=exportable)\n",
+  "        for spname, field, value in (('KeyFlags', 'flags', usage), ('ExportableCertification', 'bflag', exportable)):\n            if value is not None:\n                sig._signature.subpackets.addnew(spname, hashed=True, **{field: value})\n")
+M('C02', 'addnew-table-loop-unknown-field', PGP, "        if usage is not None:\n            sig._signature.subpackets.addnew('KeyFlags', hashed=True, flags=usage)\n\n        if exportable is not None:\n            sig._signature.subpackets.addnew('ExportableCertification', hashed=True, bflag=exportable)\n",
+  "        for spname, field, value in (('KeyFlags', 'flags', usage), ('ExportableCertification', 'flag', exportable)):\n            if value is not None:\n                sig._signature.subpackets.addnew(spname, hashed=True, **{field: value})\n", 'C02.3')
+M('C02', 'addnew-table-loop-unhashed-entry', PGP, "        if usage is not None:\n            sig._signature.subpackets.addnew('KeyFlags', hashed=True, flags=usage)\n\n        if exportable is not None:\n            sig._signature.subpackets.addnew('ExportableCertification', hashed=True, bflag=exportable)\n",
+  "        for spname, hashed, field, value in (('KeyFlags', True, 'flags', usage), ('ExportableCertification', False, 'bflag', exportable)):\n            if value is not None:\n                sig._signature.subpackets.addnew(spname, hashed=hashed, **{field: value})\n", 'C02.3')
+T('C02', 'twin-addnew-fields-dict-local', PGP, "        sig._signature.subpackets.addnew('ReasonForRevocation', hashed=True, code=reason, string=comment)", "        fields = {'code': reason, 'string': comment}\n        sig._signature.subpackets.addnew('ReasonForRevocation', hashed=True, **fields)")
+M('C02', 'addnew-fields-dict-local-wrong-key', PGP, "        sig._signature.subpackets.addnew('ReasonForRevocation', hashed=True, code=reason, string=comment)", "        fields = {'code': reason, 'comment': comment}\n        sig._signature.subpackets.addnew('ReasonForRevocation', hashed=True, **fields)", 'C02.3')
+T('C02', 'twin-bind-type-table', PGP, "        if self.is_primary and not key.is_primary:\n            sig_type = SignatureType.Subkey_Binding\n\n        elif key.is_primary and not self.is_primary:\n            sig_type = SignatureType.PrimaryKey_Binding\n\n        else:  # pragma: no cover\n            raise PGPError\n",
+  "        sig_type = {(True, False): SignatureType.Subkey_Binding,\n                    (False, True): SignatureType.PrimaryKey_Binding}.get((self.is_primary, key.is_primary))\n        if sig_type is None:  # pragma: no cover\n            raise PGPError\n")
+M('C02', 'bind-type-table-swapped', PGP, "        if self.is_primary and not key.is_primary:\n            sig_type = SignatureType.Subkey_Binding\n\n        elif key.is_primary and not self.is_primary:\n            sig_type = SignatureType.PrimaryKey_Binding\n\n        else:  # pragma: no cover\n            raise PGPError\n",
+  "        sig_type = {(True, False): SignatureType.PrimaryKey_Binding,\n                    (False, True): SignatureType.Subkey_Binding}.get((self.is_primary, key.is_primary))\n        if sig_type is None:  # pragma: no cover\n            raise PGPError\n", 'C02.1c')
+T('C02', 'twin-keymaterial-sign-star-call', FL, "        return self.__privkey__().sign(sigdata, padding.PKCS1v15(), hash_alg)", "        signer = self.__privkey__().sign\n        args = (sigdata, padding.PKCS1v15(), hash_alg)\n        return signer(*args)")
+M('C02', 'keymaterial-sign-star-call-fixed-hash', FL, "        return self.__privkey__().sign(sigdata, padding.PKCS1v15(), hash_alg)", "        signer = self.__privkey__().sign\n        args = (sigdata, padding.PKCS1v15(), hashes.SHA1())\n        return signer(*args)", 'C02.2')
+T('C02', 'twin-privkeyv4-sign-keywords', PK, "        return self.keymaterial.sign(sigdata, hash_alg)", "        return self.keymaterial.sign(hash_alg=hash_alg, sigdata=sigdata)")
+M('C02', 'privkeyv4-sign-keywords-crossed', PK, "        return self.keymaterial.sign(sigdata, hash_alg)", "        return self.keymaterial.sign(hash_alg=sigdata, sigdata=hash_alg)", 'C02.2')
+T('C02', 'twin-sign-hash-class-local', PGP, "        _sig = self._key.sign(sigdata, getattr(hashes, sig.hash_algorithm.name)())", "        signer = self._key.sign\n        hash_cls = getattr(hashes, sig.hash_algorithm.name)\n        _sig = signer(sigdata, hash_cls())")
+T('C02', 'twin-addnew-explicit-setitem', FL, "        if hashed:\n            self['h_' + spname] = nsp\n\n        else:\n            self[spname] = nsp", "        self.__setitem__(('h_' if hashed else '') + spname, nsp)")
+T('C02', 'twin-rsa-from-signer-int-from-bytes', FL, "        self.md_mod_n = MPI(self.bytes_to_int(sig))", "        self.md_mod_n = MPI(int.from_bytes(sig, 'big'))")
+T('C02', 'twin-eddsa-from-signer-shift-and-len', FL, EDFS, "        lsig = len(sig)\n        if lsig & 1:\n            raise PGPError(\"malformed EdDSA signature\")\n        split = lsig >> 1\n        self.r = MPI(int.from_bytes(sig[:split], 'big'))\n        self.s = MPI(int.from_bytes(sig[split:lsig], 'big'))\n")
+M('C02', 'revoker-class-octet-without-0x80', PGP, "        keyclass = RevocationKeyClass.Normal | (RevocationKeyClass.Sensitive if sensitive else 0x00)", "        keyclass = RevocationKeyClass.Sensitive if sensitive else RevocationKeyClass.Normal", 'C02.3')
+T('C05', 'twin-parse-int-from-bytes', FL, "        hl = self.bytes_to_int(packet[:2])\n        hashed_raw = packet[:2 + hl]", "        hl = int.from_bytes(packet[:2], 'big')\n        hashed_raw = packet[:2 + hl]")
+T('C05', 'twin-sigv4-copy-plan', PK, "        spkt._sigtype = self._sigtype\n        spkt._pubalg = self._pubalg\n        spkt._halg = self._halg\n\n        spkt.subpackets = copy.copy(self.subpackets)\n        spkt.hash2 = copy.copy(self.hash2)\n        spkt.signature = copy.copy(self.signature)\n",
+  "        plan = (('_sigtype', None), ('_pubalg', None), ('_halg', None),\n                ('subpackets', copy.copy), ('hash2', copy.copy), ('signature', copy.copy))\n        for name, duplicate in plan:\n            value = getattr(self, name)\n            if duplicate is not None:\n                value = duplicate(value)\n            setattr(spkt, name, value)\n")
+M('C05', 'sigv4-copy-plan-shares-subpackets', PK, "        spkt._sigtype = self._sigtype\n        spkt._pubalg = self._pubalg\n        spkt._halg = self._halg\n\n        spkt.subpackets = copy.copy(self.subpackets)\n        spkt.hash2 = copy.copy(self.hash2)\n        spkt.signature = copy.copy(self.signature)\n",
+  "        plan = (('_sigtype', None), ('_pubalg', None), ('_halg', None),\n                ('subpackets', None), ('hash2', copy.copy), ('signature', copy.copy))\n        for name, duplicate in plan:\n            value = getattr(self, name)\n            if duplicate is not None:\n                value = duplicate(value)\n            setattr(spkt, name, value)\n", 'C05.3')
+T('C05', 'twin-parse-loop-stop-form', FL, "        plen = len(packet)\n        while plen - len(packet) < hl:\n            sp = SignatureSP(packet)\n            self['h_' + sp.__class__.__name__] = sp\n        self._hashed_raw = hashed_raw\n",
+  "        stop = len(packet) - hl\n        while len(packet) > stop:\n            sp = SignatureSP(packet)\n            self['h_' + type(sp).__name__] = sp\n        self._hashed_raw = hashed_raw\n")
 # --- held-out refactorings / property-breaking edits written by independent sub-agents that did not see the rules (kept as
 #     unified diffs under selftest/patches/); every hunk becomes one exact-text edit, widened until it matches exactly once
 def _patch_edits(name, root='/repo'):
@@ -2116,6 +2410,32 @@ for _i, _what, _r in ((1, 'crc-zero-skips-check', 'C10.6'), (2, 'unarmor-match-n
                       (6, 'end-label-free', 'C10.7')):
     _MD('C10', 'stress-B-mut%02d-%s' % (_i, _what), 'G9-B-mut%02d.diff' % _i, _r)
 
+# ---- C10 wave-2 lessons: optional groups, normalisation on load, lenient decoding, payload strip, case-insensitive labels
+_FINDALL = "m['headers'] = collections.OrderedDict(re.findall('^(?P<key>.+): (?P<value>.+)$\\n?', m['headers'], flags=re.MULTILINE))"
+M('C10', 'crc-line-optional-group', TY, "                         ^=(?P<crc>[A-Za-z0-9+/]{4})(?:\\r?\\n)\n", "                         (?:^=(?P<crc>[A-Za-z0-9+/]{4})(?:\\r?\\n))?\n", 'C10.6')
+M('C10', 'crc-line-alternative-empty', TY, "                         ^=(?P<crc>[A-Za-z0-9+/]{4})(?:\\r?\\n)\n", "                         (?:^=(?P<crc>[A-Za-z0-9+/]{4})(?:\\r?\\n)|)\n", 'C10.6')
+M('C10', 'body-optional-group', TY, "(?P<body>([A-Za-z0-9+/]{1,76}={,2}(?:\\r?\\n))+)\n", "(?P<body>([A-Za-z0-9+/]{1,76}={,2}(?:\\r?\\n))+)?\n", 'C10.6')
+T('C10', 'twin-crc-optional-but-absence-reported', TY, "                         ^=(?P<crc>[A-Za-z0-9+/]{4})(?:\\r?\\n)\n", "                         (?:^=(?P<crc>[A-Za-z0-9+/]{4})(?:\\r?\\n))?\n",
+  more=[(TY, "                warnings.warn('Incorrect crc24', stacklevel=3)\n\n        return m", "                warnings.warn('Incorrect crc24', stacklevel=3)\n\n        else:\n            warnings.warn('Missing crc24', stacklevel=3)\n\n        return m")])
+M('C10', 'headers-key-capitalized-on-load', TY, _FINDALL, "m['headers'] = collections.OrderedDict((key.capitalize(), value) for key, value in re.findall('^(?P<key>.+): (?P<value>.+)$\\n?', m['headers'], flags=re.MULTILINE))", 'C10.7')
+M('C10', 'headers-value-stripped-on-load', TY, _FINDALL, "m['headers'] = collections.OrderedDict([(k, v.strip()) for k, v in re.findall('^(?P<key>.+): (?P<value>.+)$\\n?', m['headers'], flags=re.MULTILINE)])", 'C10.7')
+M('C10', 'headers-lowercase-dictcomp', TY, _FINDALL, "m['headers'] = {k.lower(): v for k, v in re.findall('^(?P<key>.+): (?P<value>.+)$\\n?', m['headers'], flags=re.MULTILINE)}", 'C10.7')
+M('C10', 'headers-comment-filtered', TY, _FINDALL, "m['headers'] = collections.OrderedDict(kv for kv in re.findall('^(?P<key>.+): (?P<value>.+)$\\n?', m['headers'], flags=re.MULTILINE) if kv[0] != 'Comment')", 'C10.7')
+T('C10', 'twin-headers-pairs-through-comprehension', TY, _FINDALL, "pairs = re.findall('^(?P<key>.+): (?P<value>.+)$\\n?', m['headers'], flags=re.MULTILINE)\n            m['headers'] = collections.OrderedDict((name, text) for name, text in pairs)")
+M('C10', 'headers-written-deduplicated-sorted', TY, "for key, val in self.ascii_headers.items()),", "for key, val in sorted(set(self.ascii_headers.items()))),", 'C10.7')
+M('C10', 'label-normalised-on-load', TY, "        if m['hashes'] is not None:\n            m['hashes'] = m['hashes'].split(',')", "        m['magic'] = m['magic'].strip().upper()\n\n        if m['hashes'] is not None:\n            m['hashes'] = m['hashes'].split(',')", 'C10.5')
+M('C10', 'label-compared-case-insensitively', PGP, "unarmored['magic'] != 'SIGNATURE':", "unarmored['magic'].upper() != 'SIGNATURE':", 'C10.5')
+M('C10', 'key-label-compared-case-insensitively', PGP, "'KEY' not in unarmored['magic']:", "'key' not in unarmored['magic'].lower():", 'C10.5')
+M('C10', 'armor-regex-ignorecase', TY, '""", flags=re.MULTILINE | re.VERBOSE)', '""", flags=re.MULTILINE | re.VERBOSE | re.IGNORECASE)', 'C10.5')
+M('C10', 'body-decode-error-swallowed', TY, "            except (binascii.Error, TypeError) as ex:\n                raise PGPError(str(ex)) from ex", "            except (binascii.Error, TypeError) as ex:\n                pass", 'C10.6')
+T('C10', 'twin-crc-decode-guarded-though-group-always-decodes', TY, "            m['crc'] = Header.bytes_to_int(base64.b64decode(m['crc'].encode()))\n            if Armorable.crc24(m['body']) != m['crc']:\n                warnings.warn('Incorrect crc24', stacklevel=3)",
+  "            try:\n                m['crc'] = Header.bytes_to_int(base64.b64decode(m['crc'].encode()))\n            except (binascii.Error, TypeError):\n                m['crc'] = None\n            if m['crc'] is not None and Armorable.crc24(m['body']) != m['crc']:\n                warnings.warn('Incorrect crc24', stacklevel=3)")
+M('C10', 'crc-compared-low-16-bits', TY, "            if Armorable.crc24(m['body']) != m['crc']:", "            if (Armorable.crc24(m['body']) & 0xFFFF) != (m['crc'] & 0xFFFF):", 'C10.6')
+M('C10', 'payload-stripped-before-encoding', TY, "        payload = base64.b64encode(self.__bytes__()).decode('latin-1')", "        payload = base64.b64encode(self.__bytes__().strip()).decode('latin-1')", 'C10.2')
+M('C10', 'payload-text-rstripped-equals', TY, "        payload = base64.b64encode(self.__bytes__()).decode('latin-1')", "        payload = base64.b64encode(self.__bytes__()).decode('latin-1').rstrip('=')", 'C10.2')
+M('C10', 'from-blob-strips-binary-input', TY, "            po = obj.parse(bytearray(blob))", "            po = obj.parse(bytearray(blob).strip())", 'C10.5')
+M('C10', 'from-blob-strips-text-input-only-head', TY, "            po = obj.parse(bytearray(blob, 'latin-1'))", "            po = obj.parse(bytearray(blob[1:], 'latin-1'))", 'C10.5')
+
 # =============================================================================================== C11
 M('C11', 'escape-two-spaces', PGP, "        return re.subn(r'^-', '- -', text, flags=re.MULTILINE)[0]", "        return re.subn(r'^-', '-  -', text, flags=re.MULTILINE)[0]", 'C11.1')
 M('C11', 'unescape-no-multiline', PGP, "        return re.subn(r'^- ', '', text, flags=re.MULTILINE)[0]", "        return re.subn(r'^- ', '', text)[0]", 'C11.1')
@@ -2290,6 +2610,19 @@ for _i in range(1, 11):
     _TD('C11', 'stress-B-twin%02d-reader-regex-respelling' % _i, 'G9-B-twin%02d.diff' % _i)
 for _i, _what, _r in ((7, 'hash-framing-two-or-more', 'C11.3'), (8, 'final-cleartext-line-greedy', 'C11.7')):
     _MD('C11', 'stress-B-mut%02d-%s' % (_i, _what), 'G9-B-mut%02d.diff' % _i, _r)
+
+# ---- C11 wave-2 lessons: dedup / limits while reading, normalisation on load
+_ATTACH = "                self |= PGPSignature() | pkt\n"
+M('C11', 'duplicate-signer-time-skipped', PGP, _ATTACH, "                sig = PGPSignature() | pkt\n                if any(s.signer == sig.signer and s.created == sig.created for s in self._signatures):\n                    continue\n                self |= sig\n", 'C11.2')
+M('C11', 'only-first-signature-read', PGP, _ATTACH, "                if len(self._signatures) >= 1:\n                    continue\n                self |= PGPSignature() | pkt\n", 'C11.2')
+M('C11', 'signature-loop-stops-after-one', PGP, _ATTACH, "                self |= PGPSignature() | pkt\n                break\n", 'C11.2')
+T('C11', 'twin-signature-loop-if-else', PGP, "                if not isinstance(pkt, Signature):  # pragma: no cover\n                    warnings.warn(\"Discarded unexpected packet: {:s}\".format(pkt.__class__.__name__), stacklevel=2)\n                    continue\n                self |= PGPSignature() | pkt\n",
+  "                if isinstance(pkt, Signature):\n                    sig = PGPSignature()\n                    sig |= pkt\n                    self |= sig\n                else:  # pragma: no cover\n                    warnings.warn(\"Discarded unexpected packet: {:s}\".format(pkt.__class__.__name__), stacklevel=2)\n")
+M('C11', 'cleartext-line-endings-normalised-on-load', TY, "        if m['hashes'] is not None:\n            m['hashes'] = m['hashes'].split(',')", "        if m['hashes'] is not None:\n            m['hashes'] = m['hashes'].split(',')\n\n        if m['cleartext'] is not None:\n            m['cleartext'] = m['cleartext'].replace('\\r\\n', '\\n')", 'C11.2')
+M('C11', 'cleartext-rstripped-in-parse', PGP, "            self |= self.dash_unescape(unarmored['cleartext'])", "            self |= self.dash_unescape(unarmored['cleartext']).rstrip()", 'C11.2')
+M('C11', 'hash-header-first-digest-only', PGP, "hashes=','.join(sorted(hashes))", "hashes=','.join(sorted(hashes)[:1])", 'C11.3')
+M('C11', 'unescape-any-whitespace-after-dash', PGP, "        return re.subn(r'^- ', '', text, flags=re.MULTILINE)[0]", "        return re.subn(r'^-\\s', '', text, flags=re.MULTILINE)[0]", 'C11.1')
+M('C11', 'escape-case-from-lines-too', PGP, "        return re.subn(r'^-', '- -', text, flags=re.MULTILINE)[0]", "        return re.subn(r'^-', '- -', text.strip(), flags=re.MULTILINE)[0]", 'C11.1')
 
 # =============================================================================================== C09
 M('C09', 'enc-191', TY, "            if 192 > nl:\n                return Header.int_to_bytes(nl)", "            if 191 > nl:\n                return Header.int_to_bytes(nl)", 'C09.1')
@@ -2849,6 +3182,53 @@ T('C08', 'twin-hashed-area-count-from-bytes', FL, '        hl = self.bytes_to_in
   "        hl = int.from_bytes(packet[:2], 'big')\n        hashed_raw = packet[:2 + hl]\n        del packet[:2]\n")
 T('C08', 'twin-dispatch-factory-staticmethod', TY, '    def __call__(cls, packet=None):  # NOQA\n        def _makeobj(cls):\n            obj = object.__new__(cls)\n            obj.__init__()\n            return obj\n\n',
   '    @staticmethod\n    def _makeobj(cls):\n        obj = object.__new__(cls)\n        obj.__init__()\n        return obj\n\n    def __call__(cls, packet=None):  # NOQA\n', more=[(TY, '            obj = _makeobj(ncls)\n', '            obj = MetaDispatchable._makeobj(ncls)\n'), (TY, '            obj = _makeobj(cls)\n', '            obj = MetaDispatchable._makeobj(cls)\n')])
+# repeated items: loop <-> EACH, loop bound, early exit, wrong length field, field read twice (second-wave miss C08-w2mut3 and its relatives)
+M('C08', 'ua-loop-to-if', PK, '        while self.header.length > (plen - len(packet)):\n            self.subpackets.parse(packet)',
+  '        if self.header.length > (plen - len(packet)):\n            self.subpackets.parse(packet)', 'C08.c')
+M('C08', 'hashed-loop-to-if', FL, '        while plen - len(packet) < hl:\n',
+  '        if plen - len(packet) < hl:\n', 'C08.c')
+M('C08', 'unhashed-loop-once', FL, '        while plen - len(packet) < uhl:\n            sp = SignatureSP(packet)\n            self[sp.__class__.__name__] = sp',
+  '        if uhl:\n            sp = SignatureSP(packet)\n            self[sp.__class__.__name__] = sp', 'C08.c')
+M('C08', 'compressed-loop-to-if', PK, '        while len(cdata) > 0:\n            self.packets.append(Packet(cdata))',
+  '        if len(cdata) > 0:\n            self.packets.append(Packet(cdata))', 'C08.c')
+M('C08', 'hashed-bound-plus-header', FL, '        while plen - len(packet) < hl:\n',
+  '        while plen - len(packet) < hl + 2:\n', 'C08.d')
+M('C08', 'hashed-bound-le', FL, '        while plen - len(packet) < hl:\n',
+  '        while plen - len(packet) <= hl:\n', 'C08.d')
+M('C08', 'ua-bound-ge', PK, '        while self.header.length > (plen - len(packet)):\n',
+  '        while self.header.length >= (plen - len(packet)):\n', 'C08.d')
+M('C08', 'ua-bound-minus-header', PK, '        while self.header.length > (plen - len(packet)):\n',
+  '        while self.header.length - len(self.header) > (plen - len(packet)):\n', 'C08.d')
+M('C08', 'unhashed-until-empty', FL, '        while plen - len(packet) < uhl:\n',
+  '        while len(packet) > 0:\n', 'C08.d')
+M('C08', 'unhashed-bound-stale-length', FL, '        while plen - len(packet) < uhl:\n',
+  '        while plen - len(packet) < hl:\n', 'C08.d')
+M('C08', 'hashed-stop-at-opaque', FL, "            sp = SignatureSP(packet)\n            self['h_' + sp.__class__.__name__] = sp\n",
+  "            sp = SignatureSP(packet)\n            if sp.__class__.__name__ == 'Opaque':\n                break\n            self['h_' + sp.__class__.__name__] = sp\n", 'C08.d')
+M('C08', 'compressed-stop-at-opaque', PK, '        while len(cdata) > 0:\n            self.packets.append(Packet(cdata))',
+  '        while len(cdata) > 0:\n            pkt = Packet(cdata)\n            if pkt.header.tag == 0:\n                return\n            self.packets.append(pkt)', 'C08.d')
+M('C08', 'reason-width-len-packet', SS, '        self.string = packet[:(self.header.length - 2)]\n        del packet[:(self.header.length - 2)]',
+  '        self.string = packet[:len(packet)]\n        del packet[:len(packet)]', 'C08.d')
+M('C08', 'literal-remainder-llen', PK, '        self._contents = packet[:self.header.length - (6 + fnl)]\n        del packet[:self.header.length - (6 + fnl)]',
+  '        self._contents = packet[:self.header.llen - (6 + fnl)]\n        del packet[:self.header.llen - (6 + fnl)]', 'C08.d')
+M('C08', 'seipd-remainder-len-packet', PK, '        self.ct = packet[:self.header.length - 1]\n        del packet[:self.header.length - 1]\n\n    def encrypt(self, key, alg, data):',
+  '        self.ct = packet[:len(packet) - 1]\n        del packet[:len(packet) - 1]\n\n    def encrypt(self, key, alg, data):', 'C08.d')
+M('C08', 'sig-pubalg-read-twice', PK, '        self.pubalg = packet[0]\n        del packet[0]\n\n        self.halg = packet[0]\n        del packet[0]\n\n        self.subpackets.parse(packet)\n',
+  '        self.pubalg = packet[0]\n        del packet[0]\n\n        self.pubalg = packet[0]\n        del packet[0]\n\n        self.subpackets.parse(packet)\n', 'C08.c')
+M('C08', 'sig-halg-peeked-not-consumed', PK, '        self.pubalg = packet[0]\n        del packet[0]\n\n        self.halg = packet[0]\n        del packet[0]\n\n        self.subpackets.parse(packet)\n',
+  '        self.pubalg = packet[0]\n        del packet[0]\n\n        self.halg = packet[0]\n\n        self.subpackets.parse(packet)\n', 'C08.a')
+M('C08', 'literal-mtime-read-twice', PK, '        self.mtime = packet[:4]\n        del packet[:4]\n',
+  '        self.mtime = packet[:4]\n        del packet[:4]\n        self.mtime = packet[:4]\n        del packet[:4]\n', 'C08.c')
+T('C08', 'twin-ua-loop-consumed-local', PK, '        plen = len(packet)\n        while self.header.length > (plen - len(packet)):\n            self.subpackets.parse(packet)',
+  '        start = len(packet)\n        total = self.header.length\n        while start - len(packet) < total:\n            self.subpackets.parse(packet)')
+T('C08', 'twin-hashed-loop-stop-local', FL, "        plen = len(packet)\n        while plen - len(packet) < hl:\n            sp = SignatureSP(packet)\n            self['h_' + sp.__class__.__name__] = sp\n",
+  "        stop = len(packet) - hl\n        while len(packet) > stop:\n            sp = SignatureSP(packet)\n            self['h_' + sp.__class__.__name__] = sp\n")
+T('C08', 'twin-hashed-loop-while-true', FL, "        plen = len(packet)\n        while plen - len(packet) < hl:\n            sp = SignatureSP(packet)\n            self['h_' + sp.__class__.__name__] = sp\n",
+  "        plen = len(packet)\n        while True:\n            if plen - len(packet) >= hl:\n                break\n            sp = SignatureSP(packet)\n            self['h_' + sp.__class__.__name__] = sp\n")
+T('C08', 'twin-compressed-loop-truthy', PK, '        while len(cdata) > 0:\n            self.packets.append(Packet(cdata))',
+  '        while cdata:\n            pkt = Packet(cdata)\n            self.packets.append(pkt)')
+T('C08', 'twin-compressed-writer-join', PK, '        _pb = bytearray()\n        for pkt in self.packets:\n            _pb += pkt.__bytearray__()\n        _bytes += self.calg.compress(bytes(_pb))',
+  "        _pb = b''.join(bytes(pkt.__bytearray__()) for pkt in self.packets)\n        _bytes += self.calg.compress(_pb)")
 # --- end C08 hardening
 M('C09', 'old-tag-shift', PT, "        tag |= (self.tag) if self._lenfmt else ((self.tag << 2) | {1: 0, 2: 1, 4: 2, 0: 3}[self.llen])", "        tag |= (self.tag) if self._lenfmt else ((self.tag << 1) | {1: 0, 2: 1, 4: 2, 0: 3}[self.llen])", 'C09.8')
 M('C09', 'tag-mask-1f', PT, "        _tag = (val & 0x3F) if self._lenfmt else ((val & 0x3C) >> 2)", "        _tag = (val & 0x1F) if self._lenfmt else ((val & 0x3C) >> 2)", 'C09.8')
@@ -3275,3 +3655,38 @@ M('C18', 'keyid-first-16-digits', TY, "        return self[-16:]", "        retu
 M('C18', 'subkey-index-by-first-16-digits', PGP, "        self._children[key.fingerprint.keyid] = key\n        key._parent = self", "        self._children[key.fingerprint[:16]] = key\n        key._parent = self", 'C18.4')
 M('C18', 'signer-id-first-16-digits-via-temp', PGP, "        sig = PGPSignature.new(SignatureType.DirectlyOnKey, self.key_algorithm, hash_algo, self.fingerprint.keyid, created=prefs.pop('created', None))",
   "        fpr = self.fingerprint\n        sig = PGPSignature.new(SignatureType.DirectlyOnKey, self.key_algorithm, hash_algo, fpr[:16], created=prefs.pop('created', None))", 'C18')
+
+# =============================================================================================== C02 / C05: independent stress patches
+# selftest/patches/G2-*.diff: 38 behaviour-preserving refactorings (three sub-agents that never saw the rules; each verified against the
+# test-suite and a differential probe) and 24 property-breaking mutants (each with a witness input).  Every twin must stay silent under
+# BOTH checks; R2-twin03/05/08/10 use constructs outside the byte-term model and answer exit 2 (twin-unseen), never a violation.
+_G2_TWINS = [('C02-twin%02d' % k, w) for k, w in enumerate((
+    'sign-aliases-ifexp-merged-ifs', 'hashdata-keyframe-helper-trailer-literal', 'sign-revoke-revoker-ifexp-guards', 'certify-bound-addnew-module-frozenset',
+    'bind-new-hashdata-helpers', 'pubalg-if-chain-writer-plus-chain-field-loop', 'priv-sign-temporaries-prehash-helper', 'subpackets-area-helper-join',
+    'signature-fields-join-method-divmod-zip', 'can-sign-or-chain-hasher-keyword', 'subpacket-writers-loops-single-expressions',
+    'sign-helpers-new-keywords-class-table-keyerror'), 1)]
+_G2_TWINS += [('C05-twin%02d' % k, w) for k, w in enumerate((
+    'parse-renames-format-key', 'parse-area-helper', 'area-bytes-helper-is-none-swapped', 'setitem-renames-if-else', 'copy-slice-addnew-continue-init-tuple',
+    'sigv4-parse-setattr-loop', 'setters-class-table-single-store', 'canonical-bytes-field-loop-copy-setattr-loop', 'hashdata-trailer-bytearray-literal',
+    'pgpsig-copy-or-properties-locals', 'bytearray-one-expression-join-generator', 'parse-stop-form-type-name-trailer-extend'), 1)]
+_G2_TWINS += [('R2-twin%02d' % k, w) for k, w in enumerate((
+    'subpackets-container-methods', 'parse-generator-int-from-bytes-explicit-setitem', 'serialisers-inlined-to-bytes-while-pop', 'subpacket-writers-piece-lists',
+    'signature-fields-reduce-closures-shift', 'priv-sign-star-call-keywords', 'setters-for-else-suppress', 'writer-generator-slice-insert',
+    'copy-plan-del-slice-tuple-assign', 'properties-attrgetter-new-table-driven', 'hashdata-piece-list-class-frozensets', 'sign-walrus-generator-unpack',
+    'sign-ladder-certify-closures', 'revoke-closure-dicts-bind-table'), 1)]
+for _n, _what in _G2_TWINS:
+    for _p in ('C02', 'C05'):
+        _TD(_p, 'stress-G2-%s-%s' % (_n, _what), 'G2-%s.diff' % _n)
+for _n, _what, _r in (
+        ('C02-mut01', 'canon-replace-lf', 'C02.1'), ('C02-mut02', 'trailer-length-variable-width', 'C02.1'), ('C02-mut03', 'fingerprint-subpacket-after-hash2', 'C02.2'),
+        ('C02-mut04', 'eddsa-sig-mpi-width', 'C02.4'), ('C02-mut05', 'uid-hashdata-reencoded', 'C02.1b'), ('C02-mut06', 'canonical-bytes-length-early', 'C02.5'),
+        ('C02-mut07', 'sigtype-ids-transposed', 'C02.1'), ('C02-mut08', 'revocable-hashed-by-value', 'C02.3'), ('C02-mut09', 'area-count-from-header-length', 'C02.5'),
+        ('C02-mut10', 'notation-value-length-in-characters', 'C02.6'), ('C02-mut11', 'key-hashdata-secret-header-length', 'C02.1b'),
+        ('C02-mut12', 'revoker-class-octet-without-0x80', 'C02.3'),
+        ('C05-mut01', 'capture-stored-before-hashed-loop', 'C05.1'), ('C05-mut02', 'reset-hoisted-out-of-hashed-branch', 'C05.3'),
+        ('C05-mut03', 'replay-alias-extended-in-place', 'C05.2'), ('C05-mut04', 'copy-refiles-hashed-after-capture', 'C05.3'),
+        ('C05-mut05', 'sigv4-copy-inlines-dict-copies', 'C05.3'), ('C05-mut06', 'unknown-halg-stored-as-invalid', 'C05.5'),
+        ('C05-mut07', 'rsa-ids-normalised', 'C05.5'), ('C05-mut08', 'trailer-length-from-parsed-subpackets', 'C05.4'),
+        ('C05-mut09', 'canonical-bytes-fresh-subpackets', 'C05.4'), ('C05-mut10', 'capture-kept-only-if-length-differs', 'C05.1'),
+        ('C05-mut11', 'update-hlen-drops-capture', 'C05.3')):      # C05-mut12 (sigtype & 0x7f) is the corpus entry 'sigtype-masked'
+    _MD(_n[:3], 'stress-G2-%s-%s' % (_n, _what), 'G2-%s.diff' % _n, _r)
